@@ -487,6 +487,33 @@ def discharge_call(P, f, sym, c):
             if have >= need:
                 return True, "G1: index %d under a dominating len() >= %d test on the same collection" % (idx.c, have), "index:%s[%d]" % (short_path(re.sub(r"<.*", "", st)), idx.c)
             return False, "index %d is not protected by a length test on the same collection (known len >= %d)" % (idx.c, have), "index:%s[%d]:unguarded" % (short_path(re.sub(r"<.*", "", st)), idx.c)
+        # symbolic index: `c[i + k]` under a dominating `c.len() >= i + m` (same unmodified i) with m > k
+        if idx is not None and idx.a and all(a_[0] == "var" for a_ in idx.a):
+            for (a_, lab_) in f.edge_dominators(c.bb):
+                o_, outcome_ = f.cond_struct(a_, lab_)
+                if o_[0] != "bin" or outcome_ not in ("true", "false"):
+                    continue
+                sw = f.blocks[a_]["term"]
+                pl_ = op_place(sw["discr"])
+                ds_ = f.defs.get(pl_["l"], []) if pl_ and not pl_.get("p") else []
+                if len(ds_) != 1 or ds_[0][0] != "stmt" or ds_[0][3]["k"] != "bin":
+                    continue
+                rvb = ds_[0][3]
+                op_ = rvb["op"]
+                for (len_side, other_side, flip) in ((rvb["a"], rvb["b"], False), (rvb["b"], rvb["a"], True)):
+                    lo_ = f.origin(len_side)
+                    if not (lo_[0] == "call" and lo_[1].name == "len" and _norm(f.describe_origin(f.origin(lo_[1].args[0]), deep=3)) == _norm(recv)):
+                        continue
+                    bound = sym.lin_op(other_side)
+                    if bound is None:
+                        continue
+                    opn = {"Lt": "Gt", "Le": "Ge", "Gt": "Lt", "Ge": "Le"}.get(op_, op_) if flip else op_
+                    if outcome_ == "false":
+                        opn = {"Eq": "Ne", "Ne": "Eq", "Lt": "Ge", "Le": "Gt", "Gt": "Le", "Ge": "Lt"}[opn]
+                    # len >= bound (Ge) / len > bound (Gt): need len >= idx + 1
+                    slack = bound.add(idx, -1)
+                    if not slack.a and ((opn in ("Ge", "Eq") and slack.c >= 1) or (opn == "Gt" and slack.c >= 0)):
+                        return True, "G1: index %s under a dominating len() %s %s test on the same collection" % (idx.render(), opn, bound.render()), "index:%s[sym]" % short_path(re.sub(r"<.*", "", st))
         return False, "index into %s with a non-constant index / key" % short_path(re.sub(r"<.*", "", st)), "index:%s[?]" % short_path(re.sub(r"<.*", "", st))
     # ---------------------------------------------------------------- unwrap / expect
     m = re.search(r"(Option|Result)::<[^>]*>::(unwrap|expect|unwrap_err|expect_err)$", p)
